@@ -16,6 +16,7 @@ first-order call, pass and infer. Taking for `G` the fixpoint the *propositional
 All proofs are in `Lemmas/FolTight.lean`; this file holds the property-level statements only.
 -/
 import LnnVerif.Lemmas.FolTight
+import LnnVerif.Lemmas.PendLemmas
 
 set_option linter.unusedSectionVars false
 
@@ -48,6 +49,18 @@ theorem C02_never_tighter_infer (kb : FKB ι α) (ar : ι → Nat) (hwf : FWF kb
     (s : FState ι α) (ha : Arity ar s) (hs : SLe kb s G) (i : ι) (g : Gr) :
     BLe (Table.getD (kb i).world ((fInfer kb nodes up down eps fuel s).state.get i) g) (G i g) :=
   C02_not_tighter_query kb ar hwf G hc nodes up down hup hdown eps fuel s ha hs i g
+
+/-- the EXECUTED loop (`pInfer`, what the driver replays against the implementation) on a
+quantifier-free knowledge base is the plain loop (`C06_pInfer_is_fInfer`), so the theorem applies to
+it verbatim -/
+theorem C02_never_tighter_executed (kb : FKB ι α) (ar : ι → Nat) (hwf : FWF kb ar)
+    (G : ι → Gr → Bounds α) (hc : GClosed kb ar G) (hnp : NoQuantParent kb) (nodes : List ι)
+    (up down : List (FCall ι)) (hup : ∀ c ∈ up, QF kb c) (hdown : ∀ c ∈ down, QF kb c) (eps : α)
+    (fuel : Nat) (s : FState ι α) (ha : Arity ar s) (hs : SLe kb s G) (i : ι) (g : Gr) :
+    BLe (Table.getD (kb i).world ((pInfer kb nodes up down eps fuel ⟨s, []⟩).state.st.get i) g)
+      (G i g) := by
+  rw [(pInfer_of_noParent hnp nodes up down eps fuel s).1]
+  exact C02_never_tighter_infer kb ar hwf G hc nodes up down hup hdown eps fuel s ha hs i g
 
 /-- `GClosed` is exactly "no un-arrested step of the propositional engine on the ground
 instantiation tightens it" -/
